@@ -109,4 +109,41 @@ CHECKS = {
         "min_obs": {"mutations_applied": 100, "bytes_compared": 1000000},
         "timeout": {"quick": 1200, "thorough": 14000},
     },
+    "C05": {
+        "scenarios": [("C05-probe", "vsim")],
+        "rule": "per case 12 (quick) / 30 (thorough) probes from a credential-less address against a server with a concurrent genuine "
+                "user: random strings of length 0..200 / 1499 / 1500 / 4096 / 70000, strict prefixes of a never-delivered genuine first "
+                "segment, single-bit flips in its authenticated regions, well-formed handshakes under a wrong password, an unregistered "
+                "user, and a foreign key with a hint naming a real user; 1-4 probes per connection, both transports, hint-mandatory "
+                "on/off; everything leaving the server towards the prober is counted at the network boundary for the life of the "
+                "probe plus 130 virtual seconds; distinct = hash of (transport, hint-mandatory, probes per connection, probe list)",
+        "technique": "runtime monitor: zero-reply / zero-session counters at the simulated network boundary and the server's accept "
+                     "and session-list interfaces, probes crafted with the independent reference codec, virtual time",
+        "text": "Counts bytes and datagrams towards the prober at the boundary (not server counters), accepted sessions nobody expected "
+                "and session-list entries; requires the concurrent genuine transfer to complete.",
+        "note": "trusted: simnet boundary counters, reference codec crafting; probes whose cut lies in unauthenticated padding are not "
+                "followed by more bytes on the same connection (that would be the genuine handshake with other padding)",
+        "design_ref": "DESIGN.md section 4, C05",
+        "min_obs": {"probes": 200, "genuine_transfers_completed": 10},
+        "timeout": {"quick": 1200, "thorough": 14000},
+    },
+    "C06": {
+        "scenarios": [("C06-replay", "vsim"), ("C06-cache", "vsim"), ("C06-conc", "vrace")],
+        "races": True,
+        "rule": "(a) end to end: a genuine session is recorded at the network boundary and replayed from a foreign address (whole "
+                "stream / prefix at a segment boundary / first segment; 1-3 times; 0..179 s later; original open or closed; with or "
+                "without a concurrent fresh genuine connection; a quarter of the cases place the original 3 s before a known rotation "
+                "instant of the process-wide cache); (b) replay.NewCache with capacity 1..8 and interval 2..10 virtual seconds under "
+                "300-operation random histories checked against an executable specification with a strict and a lenient capacity "
+                "bound; (c) concurrent IsDuplicate histories (2-8 goroutines) checked for linearizability with porcupine under the "
+                "race detector; distinct = hash of the case parameters",
+        "technique": "runtime monitor: boundary zero-reply oracle for replays + executable cache specification over recorded histories "
+                     "(porcupine for concurrent ones, Go race detector), virtual time for rotation",
+        "text": "Replays must draw nothing and create nothing; the cache must not miss entries inside its stated bounds nor flag "
+                "never-seen items. Misses caused only by re-sighted entries consuming capacity are a recorded known finding.",
+        "note": "trusted: simnet, reference decoder (segment boundaries), porcupine, the executable cache specification",
+        "design_ref": "DESIGN.md section 4, C06",
+        "min_obs": {"replays": 40, "cache_ops": 10000, "history_ops": 2000},
+        "timeout": {"quick": 1200, "thorough": 14000},
+    },
 }
